@@ -49,6 +49,7 @@ type Ev struct {
 	Base     RV   // field load/store events: the (resolved) struct pointer
 	Field    *types.Var
 	Note     string // free-form payload (facts emitted by probes)
+	Elems    map[int][]RV // call events: resolved elements of arguments that are slice literals ([]T{a, b})
 }
 
 type Path struct {
@@ -122,6 +123,13 @@ type PPA struct {
 	TraceBranches bool
 	// TraceLoads records loads of struct fields as events "load:pkg.Type.field".
 	TraceLoads bool
+	// NoAuto disables the default inlining of unexported same-package helpers and of
+	// function literals invoked where they are defined.  By default such a callee is
+	// entered unless the rule watches the call itself (Watch accepts its call event),
+	// lists it in Opaque, or it is recursive — so extracting or inlining a helper
+	// does not change what a rule sees.
+	NoAuto bool
+	Opaque map[*ssa.Function]bool
 	// Probe is called for every instruction about to be executed on a path.
 	Probe func(e *PPA, st *State, fr *Frame, in ssa.Instruction)
 
@@ -149,13 +157,60 @@ func (e *PPA) Run(fn *ssa.Function) {
 
 // RunClosure enumerates the paths of the function literal created by mc; its
 // free variables resolve to the binding values in the enclosing function.
-func (e *PPA) RunClosure(mc *ssa.MakeClosure) {
+func (e *PPA) RunClosure(mc *ssa.MakeClosure) { e.RunClosureVia(mc, nil) }
+
+// closureArg finds the function literal behind a func-typed argument: the
+// literal itself, or the literal returned by a same-package constructor
+// (cond := storedBefore(ts)), in which case via is the constructor call.
+func closureArg(v ssa.Value) (mc *ssa.MakeClosure, via *ssa.Call) {
+	v = unwrap(v)
+	if m, ok := v.(*ssa.MakeClosure); ok {
+		return m, nil
+	}
+	call, ok := v.(*ssa.Call)
+	if !ok {
+		return nil, nil
+	}
+	g := staticCallee(&call.Call)
+	if g == nil || len(g.Blocks) == 0 || g.Pkg != call.Parent().Pkg {
+		return nil, nil
+	}
+	var found *ssa.MakeClosure
+	n := 0
+	instrs(g, func(in ssa.Instruction) {
+		if ret, ok := in.(*ssa.Return); ok && len(ret.Results) == 1 {
+			n++
+			if m, ok := unwrap(ret.Results[0]).(*ssa.MakeClosure); ok {
+				found = m
+			}
+		}
+	})
+	if n != 1 || found == nil {
+		return nil, nil
+	}
+	return found, call
+}
+
+// RunClosureVia analyses the closure created by mc; when the closure is
+// returned by a constructor called at via, the constructor's parameters are
+// bound to the arguments of that call.
+func (e *PPA) RunClosureVia(mc *ssa.MakeClosure, via *ssa.Call) {
 	fn := mc.Fn.(*ssa.Function)
 	e.defaults()
 	e.Paths = nil
 	e.Overflow = false
 	e.Truncated = 0
-	outer := e.newFrame(mc.Parent(), nil, nil, nil, nil)
+	var outer *Frame
+	if via != nil {
+		caller := e.newFrame(via.Parent(), nil, nil, nil, nil)
+		var args []RV
+		for _, a := range via.Call.Args {
+			args = append(args, RV{caller, a})
+		}
+		outer = e.newFrame(mc.Parent(), caller, args, nil, via)
+	} else {
+		outer = e.newFrame(mc.Parent(), nil, nil, nil, nil)
+	}
 	var bind []RV
 	for _, b := range mc.Bindings {
 		bind = append(bind, RV{outer, b})
@@ -562,7 +617,7 @@ func (e *PPA) exec(fr *Frame, b *ssa.BasicBlock, i int, st *State, k cont) {
 				continue
 			}
 			callee := e.calleeOf(st, fr, &in.Call)
-			if callee != nil && len(callee.Blocks) > 0 && e.Inline != nil && fr.depth() < e.MaxDepth && e.Inline(fr, in, callee) {
+			if callee != nil && len(callee.Blocks) > 0 && fr.depth() < e.MaxDepth && ((e.Inline != nil && e.Inline(fr, in, callee)) || e.auto(st, fr, in, callee)) {
 				e.inlineCall(fr, in, &in.Call, callee, st, func(st *State, rets []RV) {
 					st.bind[RV{fr, in}] = rets
 					e.exec(fr, b, i+1, st, k)
@@ -635,6 +690,83 @@ func (e *PPA) exec(fr *Frame, b *ssa.BasicBlock, i int, st *State, k cont) {
 	}
 }
 
+// neverAuto: same-package callees that rules identify as atoms by name/identity without watching them.
+var neverAuto = map[string]bool{
+	"(*coalesce.Queue).next": true, "(*coalesce.Queue).insert": true, "cache.joinPrefixAndPath": true, "cache.metaNoti": true, "cache.metaNotiBool": true,
+	"cache.metaNotiInt": true, "cache.metaNotiStr": true, "cache.deleteNoti": true, "cache.toDeleteNotification": true, "path.sortedVals": true,
+	"metadata.validInt": true, "metadata.validBool": true, "metadata.validStr": true, "value.decimalToFloat": true,
+	"(*cache.Target).gnmiUpdate": true, "(*cache.Target).gnmiRemove": true, "(*cache.Target).checkTimestamp": true,
+	"(*manager.Manager).handleGNMIUpdate": true, "(*manager.Manager).monitor": true, "(*manager.Manager).subscribe": true, "(*manager.Manager).handleUpdates": true, "(*manager.Manager).createConn": true,
+	"(*connection.Manager).remove": true, "(*connection.Manager).dial": true, "(*connection.connection).done": true,
+	"(*target.Config).checkRevision": true, "(*target.Config).handleDiffs": true,
+	"(*subscribe.Server).processSubscription": true, "(*subscribe.Server).sendSubscribeResponse": true, "(*subscribe.Server).sendStreamingResults": true, "subscribe.addSubscription": true, "subscribe.isTargetDelete": true,
+	"(*ctree.Tree).internalDelete": true, "(*ctree.Tree).slowAdd": true, "(*ctree.Tree).isBranch": true,
+	"(*client.ReconnectClient).initDone": true, "(*client.BaseClient).run": true, "client.getFirst": true,
+	"(*testing/fake/queue.value).nextValue": true, "(*testing/fake/queue.value).updateTimestamp": true, "(*testing/fake/queue.UpdateQueue).addValue": true, "testing/fake/queue.newValue": true,
+	"(*match.branch).update": true, "(*match.branch).addQuery": true, "(*match.branch).removeQuery": true,
+	"(*cmd/gnmi_collector.collector).add": true, "(*cmd/gnmi_collector.collector).start": true, "main.protoRequestFromFlags": true, "cmd/gnmi_cli.protoRequestFromFlags": true,
+}
+
+// auto: default inlining policy (see NoAuto).
+func (e *PPA) auto(st *State, fr *Frame, in ssa.CallInstruction, callee *ssa.Function) bool {
+	if e.NoAuto || e.Opaque[callee] || neverAuto[fnName(callee)] {
+		return false
+	}
+	if rp := pkgPathOf(e.root.Fn); rp != "" && pkgPathOf(callee) != rp {
+		return false
+	}
+	local := callee.Parent() != nil
+	if !local {
+		n := callee.Name()
+		if strings.HasSuffix(n, "$bound") || strings.HasSuffix(n, "$thunk") {
+			local = true
+		} else if n == "" || (n[0] >= 'A' && n[0] <= 'Z') {
+			return false // exported: part of the package's vocabulary, rules name these calls
+		}
+	}
+	// not recursive
+	for f := fr; f != nil; f = f.Parent {
+		if f.Fn == callee {
+			return false
+		}
+	}
+	if len(callee.Blocks) > 60 {
+		return false
+	}
+	// constructors stay symbolic: the objects they return keep one identity and
+	// their fields are not forwarded into the caller's view
+	ctor := false
+	instrs(callee, func(in2 ssa.Instruction) {
+		if r, ok := in2.(*ssa.Return); ok {
+			for _, v := range r.Results {
+				if _, isAlloc := v.(*ssa.Alloc); isAlloc {
+					ctor = true
+				}
+			}
+		}
+	})
+	if ctor {
+		return false
+	}
+	// the rule watches the call itself
+	if e.Watch != nil {
+		watched := false
+		func() {
+			defer func() {
+				if recover() != nil {
+					watched = true
+				}
+			}()
+			ev := e.callEv(st, fr, in, "call:")
+			watched = e.Watch(&ev)
+		}()
+		if watched {
+			return false
+		}
+	}
+	return true
+}
+
 func (e *PPA) forget(st *State, a RV) {
 	if key, ok := e.cellKey(st, a); ok {
 		for mk := range st.mem {
@@ -658,7 +790,7 @@ func (e *PPA) runDefers(fr *Frame, ds []*ssa.Defer, st *State, k cont) {
 	d := ds[len(ds)-1]
 	rest := ds[:len(ds)-1]
 	callee := e.calleeOf(st, fr, &d.Call)
-	if callee != nil && len(callee.Blocks) > 0 && e.Inline != nil && fr.depth() < e.MaxDepth && e.Inline(fr, d, callee) {
+	if callee != nil && len(callee.Blocks) > 0 && fr.depth() < e.MaxDepth && ((e.Inline != nil && e.Inline(fr, d, callee)) || e.auto(st, fr, d, callee)) {
 		e.inlineCall(fr, d, &d.Call, callee, st, func(st *State, _ []RV) { e.runDefers(fr, rest, st, k) })
 		return
 	}
@@ -724,6 +856,14 @@ func (e *PPA) callEv(st *State, fr *Frame, in ssa.CallInstruction, prefix string
 	for _, a := range c.Args {
 		ev.Args = append(ev.Args, e.Resolve(st, RV{fr, a}))
 	}
+	for i, a := range ev.Args {
+		if els, ok := e.sliceLitElems(st, a); ok {
+			if ev.Elems == nil {
+				ev.Elems = map[int][]RV{}
+			}
+			ev.Elems[i] = els
+		}
+	}
 	// receiver given as the address of a struct field (x.mu.Lock()): remember the struct
 	if len(ev.Args) > 0 {
 		if fa, ok := ev.Args[0].V.(*ssa.FieldAddr); ok {
@@ -732,6 +872,45 @@ func (e *PPA) callEv(st *State, fr *Frame, in ssa.CallInstruction, prefix string
 		}
 	}
 	return ev
+}
+
+// sliceLitElems resolves the elements of a slice literal []T{a, b, …} (lowered
+// as a Slice of a fresh array with constant-index stores).
+func (e *PPA) sliceLitElems(st *State, rv RV) ([]RV, bool) {
+	sl, ok := rv.V.(*ssa.Slice)
+	if !ok || sl.Low != nil || sl.High != nil {
+		return nil, false
+	}
+	al, ok := sl.X.(*ssa.Alloc)
+	if !ok {
+		return nil, false
+	}
+	at, ok := deref(al.Type()).Underlying().(*types.Array)
+	if !ok || at.Len() > 16 {
+		return nil, false
+	}
+	out := make([]RV, at.Len())
+	n := 0
+	for _, r := range *al.Referrers() {
+		ia, ok := r.(*ssa.IndexAddr)
+		if !ok {
+			continue
+		}
+		idx, okc := constInt(ia.Index)
+		if !okc || idx < 0 || idx >= at.Len() {
+			return nil, false
+		}
+		for _, rr := range *ia.Referrers() {
+			if s, ok := rr.(*ssa.Store); ok && s.Addr == ssa.Value(ia) {
+				out[idx] = e.Resolve(st, RV{rv.F, s.Val})
+				n++
+			}
+		}
+	}
+	if int64(n) != at.Len() {
+		return nil, false
+	}
+	return out, true
 }
 
 // evalCond folds a boolean value on the current path.
@@ -825,9 +1004,11 @@ func knownNonNil(v ssa.Value) bool {
 		return true
 	case *ssa.MakeInterface:
 		return true
-	case *ssa.Slice:
-		_ = x
-		return false
+	case *ssa.Call:
+		switch calleeName(&x.Call) {
+		case "errors.New", "fmt.Errorf", "google.golang.org/grpc/status.Error", "google.golang.org/grpc/status.Errorf":
+			return true
+		}
 	}
 	return false
 }
